@@ -56,6 +56,9 @@ def queries_for(cal, extra):
             qs += [("adjacent to knot", math.nextafter(x, math.inf)), ("adjacent to knot", math.nextafter(x, -math.inf))]
             if float(x).is_integer():
                 qs.append(("knot" if 0 < i < len(xs) - 1 else "end point", int(x)))
+                if abs(x) >= 2.0 ** 53:
+                    # integers that no double represents: the comparison with the knot must be exact
+                    qs += [("integer next to a knot beyond 2**53", int(x) + 1), ("integer next to a knot beyond 2**53", int(x) - 1)]
             if i + 1 < len(xs):
                 qs.append(("inside", (x + xs[i + 1]) / 2))
         span = (xs[-1] - xs[0]) or 1.0
